@@ -38,7 +38,7 @@ def sig_c09(f):
 
 
 _COMMON_ASSUME = [
-    "YAML decoding, templating of include paths and the file system are outside the model: the model's input is what the real decoder produced for each file on its own",
+    "YAML decoding and the file system are outside the model: the model's input is what the real decoder produced for each file on its own; templates in taskfile:/dir: of include statements are modelled on the family {{.NAME}} / {{.NAME | default \"x\"}} (variables = process environment overlaid with the static globals of the including file; the driver checks its reading of every template against the real templater)",
     "paths are slash separated; filepath.Join/Clean/Dir are modelled on that domain (no symlinks, no special-dir variables)",
     "ast.Var.Dir (working directory of sh: variables) is abstracted away",
     "a failing Taskfile.Merge is modelled as a sticky error of the including file; graph.Merge's first error is computed separately (merge_err)",
@@ -61,6 +61,7 @@ PROPS = {
              "R_merge: table built by the real Executor.Setup (every field of every ast.Task by reflection, vars, env, output) or its error class is one of the model's outcomes merge_all current_variant G pi sigma over all topological orders pi and edge orders sigma. "
              "R_c08_*: the monitors of Properties/C08.v evaluated on the real table; R_c08_exec: up to 3 callable names per tree run through the real Executor (origin marker, pwd, include vars, markers of referenced tasks); "
              "R_wf: the graph is in the theorems' domain (wf_graphb, wf_outb, a topological order exists). R_c08_deepcopy: extracted field lists of Task/Cmd/Dep.DeepCopy and compiledTask vs the struct fields (cross-checked dynamically by copying a fully populated ast.Task). "
+             "directed family (every 5th tree): task names / namespace keys containing ':' that collide, or nearly collide, with the qualified name of an included task (parent task `<ns>:<task>`, second include keyed `<ns1>:<ns2>`, the colliding name flattened in from a sibling): a collision must be reported (EDup), never overwrite. "
              "distinct = distinct file sets",
         assumptions=_COMMON_ASSUME + ["task names, namespaces and aliases are non-empty and do not start with ':' (wf_graph)"],
         trusted=_COMMON_TRUST,
@@ -74,6 +75,7 @@ PROPS = {
         rule="a case = one generated include tree (3-5 files, mostly siblings of the root with overlapping variable and task names, diamonds, the same file twice) loaded 40 times by Executor.Setup in one process; "
              "each load is dumped canonically (task table in order with every field, vars, env, output, plus fast-compiled command lines and variable values, and the working directory stamped on every global variable). "
              "R_c09_det (monitor): all 40 dumps are identical. R_c09_stable (monitor of C09_partial): all dumps agree on the set of keys and, per origin, on commands, deps, dir, include vars and every attribute. R_merge: every distinct dump is one of the model's outcomes merge_all current_variant G pi sigma (pi over all topological orders, sigma over all edge orders). "
+             "Every 3rd tree is directed: a file reached through two include statements passing different vars (the same file twice, diamond) has a nested include whose taskfile:/dir: is a template over a variable set by the include statements (not visible there: the default applies), by the environment, by the file's own globals or by the root's globals; the model predicts the resolved path (R_read) and the 40 loads must agree. "
              "distinct = distinct file sets",
         assumptions=_COMMON_ASSUME,
         trusted=_COMMON_TRUST,
